@@ -77,14 +77,15 @@ Lemma max_iter_zero_instance :
   snd (F_solve_t no_or prog1 fmod1 desc1 (opts1 0 0 true ERaise) 1 state1) = XB (Raise NonConvergenceError).
 Proof. repeat split; vm_compute; reflexivity. Qed.
 
-(* solve(offset=-2, errors='skip') from period 1: both raise IndexError, but the template has gone on to period 3 (whose
-   offset period exists) and the wrapper has stored the values it solved there *)
-Lemma solve_offset_witness :
+(* solve(offset=-2, errors='skip') from period 1: both raise IndexError at period 1 and neither has touched the values — the
+   template's loop stops there whatever `errors` is (fix b027373; before it the template went on to period 3, whose offset
+   period exists, and the wrapper stored the values solved there).  General statement: FSolveAllG.w_solve_refinesG, case sc_off *)
+Lemma solve_offset_instance :
   let o := opts1 100 (-2) true ESkip in
   snd (P_solve no_or prog1 desc1 o [1; 2; 3]%nat state1) = XL (Raise IndexError) /\
   snd (F_solve no_or prog1 fmod1 desc1 o FRaise [1; 2; 3]%nat state1) = XL (Raise IndexError) /\
   list_eqb (list_eqb feq_bits) (vals_of (fst (P_solve no_or prog1 desc1 o [1; 2; 3]%nat state1))) (vals_of state1) = true /\
-  list_eqb (list_eqb feq_bits) (vals_of (fst (F_solve no_or prog1 fmod1 desc1 o FRaise [1; 2; 3]%nat state1))) (vals_of state1) = false.
+  list_eqb (list_eqb feq_bits) (vals_of (fst (F_solve no_or prog1 fmod1 desc1 o FRaise [1; 2; 3]%nat state1))) (vals_of state1) = true.
 Proof. cbv zeta. repeat split; vm_compute; reflexivity. Qed.
 
 (* on the feasible period 1 with max_iter >= 1 the two engines agree bit for bit (the instance the theorems cover) *)
@@ -372,10 +373,10 @@ Section ZSkip.
   Qed.
 End ZSkip.
 
-(* KEPT FINDING: solve() of a model without periods — SolutionError ('Object `span` is empty') from the Python engine,
-   IndexError ('Too few periods (0) ... for the lags') from FortranEngine.solve, which has no such test *)
+(* solve() of a model without periods: SolutionError ('Object `span` is empty') from both engines (fix e0867c1; before it
+   FortranEngine.solve raised IndexError 'Too few periods (0) ... for the lags').  General statement: w_solve_se_refines *)
 Definition state_empty : fstate := mkState [[]; []; []] [] [] [].
-Lemma empty_span_witness :
+Lemma empty_span_instance :
   snd (P_solve_se no_or prog1 desc1 (opts1 100 0 true ERaise) None None state_empty) = XL (Raise (SolutionError None)) /\
-  snd (F_solve_se no_or prog1 fmod1 desc1 (opts1 100 0 true ERaise) FRaise None None state_empty) = XL (Raise IndexError).
+  snd (F_solve_se no_or prog1 fmod1 desc1 (opts1 100 0 true ERaise) FRaise None None state_empty) = XL (Raise (SolutionError None)).
 Proof. split; vm_compute; reflexivity. Qed.
